@@ -33,14 +33,17 @@ pub fn replay() {
         let mut exp = String::new();
         for tok in vec["exp"].as_array().unwrap() {
             match tok[0].as_str().unwrap() {
-                "g" => exp.push_str(&json_seg(&tok[1]).get_as_grapheme().unwrap_or("\u{FFFD}".into())),
+                "g" => { let g = json_seg(&tok[1]).get_as_grapheme().unwrap_or("\u{FFFD}".into());
+                         // a word typed in americanist notation keeps it for the segments no romaniser replaces
+                         exp.push_str(&if vec["w"]["am"].as_bool().unwrap_or(false) { g.replace("t͡s", "¢").replace("t͡ɬ", "ƛ").replace("d͡ɮ", "λ").replace("ɬ", "ł").replace("ɲ", "ñ") } else { g }); }
+                "t" => exp.push_str(&tok[1].as_u64().unwrap().to_string()),
                 "r" | "br" => exp.push_str(REPL[tok[1].as_u64().unwrap() as usize]),
                 _ => exp.push_str(match tok[1].as_str().unwrap() { "P" => "ˈ", "S" => "ˌ", _ => "." }),
             }
         }
         if exp != text { sum.nontrivial += 1; }
         let (f2, t2) = (from.clone(), text.clone());
-        let rec = v::record(200_000, false, false, move || asca::run(&[], &[t2], &[], &f2));
+        let rec = crate::util::rec(200_000, false, false, move || asca::run(&[], &[t2], &[], &f2));
         match rec.result {
             Ok(Ok(out)) if out.len() == 1 && out[0] == exp => { sum.agree += 1; if sum.vectors % 4999 == 0 { sum.sample(|| json!({"romanisers": from, "word": text, "printed": exp})); } }
             Ok(Ok(out)) => sum.mismatch(json!({"romanisers": from, "word": text, "expected": exp, "observed": out})),
@@ -74,9 +77,9 @@ pub fn record(out: &str, n: usize) {
             let from: Vec<String> = (0..1 + rng.below(3)).map(|_| rng.pick(&ROMS[..]).to_string()).collect();
             let mut it = Intern::new();
             let (g1, w1) = (groups.clone(), wt.clone());
-            let ra = v::record(30_000, true, false, move || asca::run(&g1, &[w1], &[], &[]));
+            let ra = crate::util::rec(30_000, true, false, move || asca::run(&g1, &[w1], &[], &[]));
             let (g2, w2, f2) = (groups.clone(), wt.clone(), from.clone());
-            let rb = v::record(30_000, true, false, move || asca::run(&g2, &[w2], &[], &f2));
+            let rb = crate::util::rec(30_000, true, false, move || asca::run(&g2, &[w2], &[], &f2));
             let (ea, eb) = (apply_ids(&ra.events, &mut it), apply_ids(&rb.events, &mut it));
             let oka = matches!(ra.result, Ok(Ok(_))); let okb = matches!(rb.result, Ok(Ok(_)));
             let pk = |p: &Box<dyn std::any::Any + Send>| if p.downcast_ref::<v::BudgetExhausted>().is_some() { "BUDGET".to_string() } else { format!("PANIC {}", panic_text(p)) };
@@ -104,9 +107,9 @@ pub fn record(out: &str, n: usize) {
             }
             if plain.is_empty() { continue; }
             let (g1, w1) = (groups.clone(), plain.clone());
-            let ra = v::record(30_000, false, false, move || asca::run(&g1, &[w1], &[], &[]));
+            let ra = crate::util::rec(30_000, false, false, move || asca::run(&g1, &[w1], &[], &[]));
             let (g2, w2, i2) = (groups.clone(), enc.clone(), into.clone());
-            let rb = v::record(30_000, false, false, move || asca::run(&g2, &[w2], &i2, &[]));
+            let rb = crate::util::rec(30_000, false, false, move || asca::run(&g2, &[w2], &i2, &[]));
             let key = |r: &std::thread::Result<Result<Vec<String>, asca::Error>>| match r { Ok(Ok(o)) => format!("ok {:?}", o), Ok(Err(e)) => err_key(e), Err(p) => if p.downcast_ref::<v::BudgetExhausted>().is_some() { "BUDGET".to_string() } else { format!("PANIC {}", panic_text(p)) } };
             let (ka, kb) = (key(&ra.result), key(&rb.result));
             if ka == "BUDGET" || kb == "BUDGET" { sum.count("step_budget_exhausted (C02's domain)", 1); continue; }
